@@ -2,4 +2,7 @@ package main
 
 import "verifh/tmrun"
 
-func init() { subcommands["tmrun"] = tmrun.Run }
+func init() {
+	subcommands["tmrun"] = tmrun.Run
+	subcommands["tmcarrier"] = tmrun.RunCarrier
+}
